@@ -83,6 +83,16 @@ structure Prepared (α : Type) where
   p : α
   eps : α
 
+/-- `if nsampling is None: nsampling = 3 if self.domain.dim == 2 else 5` -/
+def nsOf (dom : Dom) (nsampling : Option Int) : Int :=
+  match nsampling with
+  | none => if dom.dim = 2 then 3 else 5
+  | some n => n
+
+/-- `(dim == 2 and nsampling == 3) or (dim == 3 and (nsampling == 5 or nsampling == 9))` -/
+def nsValid (dom : Dom) (ns : Int) : Bool :=
+  (decide (dom.dim = 2) && decide (ns = 3)) || (decide (dom.dim = 3) && (decide (ns = 5) || decide (ns = 9)))
+
 section Prepare
 variable {α : Type} [Add α] [Sub α] [Mul α] [Div α] [Neg α] [OfNat α 0] [OfNat α 1] [NatCast α]
   [LT α] [DecidableLT α] [LE α] [DecidableLE α] [BEq α]
@@ -109,13 +119,9 @@ def prepare (F : Fns α) (dom : Dom) (arg : DirArg α) (xi0 p eps : α) (nsampli
   | .ok dir =>
     if dom.dim = 2 ∧ ¬ (dir 2 == 0) then .error "Assertion"
     else if ¬ (1 - tol10 ≤ absv (dir 0) + absv (dir 1) + absv (dir 2)) then .error "Assertion"
-    else
-      let ns : Int := match nsampling with
-        | none => if dom.dim = 2 then 3 else 5
-        | some n => n
-      if (dom.dim = 2 ∧ ns = 3) ∨ (dom.dim = 3 ∧ (ns = 5 ∨ ns = 9)) then
-        .ok ⟨dir, dom, ns.toNat, xi0, p, eps⟩
-      else .error "Assertion"
+    else if nsValid dom (nsOf dom nsampling) then
+      .ok ⟨dir, dom, (nsOf dom nsampling).toNat, xi0, p, eps⟩
+    else .error "Assertion"
 end Prepare
 
 /-! ## `set_parameters` -/
